@@ -5,12 +5,15 @@ CONSTANTS
   MaxAdd = 3
   MaxReSet = 0
   MaxCalls = 3
-  Limits = {1, 2, 5}
+  Limits = {2, 5}
   MaxRej = 2
   Impl = "fixed"
   Sym = TRUE
   NCallers = 2
   Removal = "skip"
+  MaxTwice = 0
+  SetRace = "unlocked"
+  Pick = 0
   Emit = "none"
 VIEW View
 INVARIANTS TypeOK Gone R0ok R1ok R2ok R3ok R4ok R6ok
